@@ -108,21 +108,33 @@ impl ProcessState {
             dbfile.push("db.sqlite3");
             dbfile
         };
-        let must_create = !dbfile.exists();
+        let existed = dbfile.exists();
         let mut db: Connection;
         {
-            let tx = if !must_create {
-                db = connect(&e, &dbfile)
-                    .map_err(|e| RedoError::new(format!("could not connect: {}", e)))?;
-                // A run id is inserted below when we do not inherit one: take the write
-                // lock up front, because a transaction that reads first and writes later
-                // fails with SQLITE_BUSY as soon as another process commits in between.
-                let tx = if e.runid.is_none() {
-                    db.transaction_with_behavior(TransactionBehavior::Immediate)
-                } else {
-                    db.transaction()
-                }
-                .map_err(RedoError::opaque_error)?;
+            // Opening creates an empty database file when there is none.
+            db = connect(&e, &dbfile)
+                .map_err(|e| RedoError::new(format!("could not connect: {}", e)))?;
+            // A run id is inserted below when we do not inherit one: take the write
+            // lock up front, because a transaction that reads first and writes later
+            // fails with SQLITE_BUSY as soon as another process commits in between.
+            let tx = if e.runid.is_none() || !existed {
+                db.transaction_with_behavior(TransactionBehavior::Immediate)
+            } else {
+                db.transaction()
+            }
+            .map_err(RedoError::opaque_error)?;
+            // Whether the tables must be created is decided under the write lock, not
+            // by the existence of the file: commands started together on a fresh
+            // project all find no file, and a later one may find it still empty.
+            let must_create = tx
+                .query_row(
+                    "select count(*) from sqlite_master where type = 'table' and name = 'Schema'",
+                    [],
+                    |row| row.get::<_, i64>(0),
+                )
+                .map_err(|e| RedoError::wrap(e, "schema check failed"))?
+                == 0;
+            if !must_create {
                 let ver: Option<i32> = tx
                     .query_row("select version from Schema", [], |row| row.get(0))
                     .optional()
@@ -135,12 +147,7 @@ impl ProcessState {
                         SCHEMA_VER
                     )));
                 }
-                tx
             } else {
-                helpers::unlink(&dbfile).map_err(RedoError::opaque_error)?;
-                db = connect(&e, &dbfile)
-                    .map_err(|e| RedoError::new(format!("could not connect: {}", e)))?;
-                let tx = db.transaction_with_behavior(TransactionBehavior::Immediate).map_err(RedoError::opaque_error)?;
                 tx.execute(
                     "create table Schema \
                         (version int)",
@@ -189,8 +196,7 @@ impl ProcessState {
                     .map_err(|e| RedoError::wrap(e, "failed to insert initial Runid"))?;
                 tx.execute("insert into Files (name) values (?)", params![ALWAYS])
                     .map_err(|e| RedoError::wrap(e, "failed to insert ALWAYS file"))?;
-                tx
-            };
+            }
 
             #[cfg(feature = "verif")]
             crate::verif::point(
